@@ -83,11 +83,14 @@ class State:
         self.guards  = list()      # short-circuit guards during expression eval
         self.old     = None        # entry snapshot: dict name -> Val
         self.trace   = list()      # branch decisions (for reports)
+        self.heads   = dict()      # loop ordinal -> env snapshot at loop head
+        self.qvars   = dict()      # quantifier-bound variables in scope
 
     def fork(self):
         s = State()
         s.pc, s.env, s.bound = list(self.pc), dict(self.env), dict(self.bound)
         s.guards, s.old, s.trace = list(self.guards), self.old, list(self.trace)
+        s.heads, s.qvars = dict(self.heads), dict(self.qvars)
         return s
 
     def assume(self, c):
@@ -135,9 +138,13 @@ class Executor:
         s = self._solver
         s.push()
         try:
+            # quantified facts are left out: pruning with a subset of the
+            # hypotheses is sound (unsat subset => unsat), and fast
             for a in C.str_axioms(): s.add(a)
-            for a in self.axioms:    s.add(a)
-            for a in st.pc:          s.add(a)
+            for a in self.axioms:
+                if not has_quant(a): s.add(a)
+            for a in st.pc:
+                if not has_quant(a): s.add(a)
             if extra is not None:    s.add(extra)
             return s.check()
         finally:
@@ -348,7 +355,11 @@ class Executor:
             path = path + self._auto_unwrap(st, bv)
             bv = self._unwrapped(bv)
             if isinstance(bv.ty, TRec) or isinstance(bv, PyDict):
-                return root, path + (('f', node.attr),)
+                attr = node.attr
+                if isinstance(bv.ty, TRec):
+                    attr = getattr(self.reg, 'rec_props', {}) \
+                               .get(bv.ty.name, {}).get(attr, attr)
+                return root, path + (('f', attr),)
             return None
         if isinstance(node, ast.Subscript):
             base = self.ev_path(node.value, st, for_write)
@@ -495,6 +506,8 @@ class Executor:
             base = Val(ty.elem, ty.val(base.term))
             ty = base.ty
         if isinstance(ty, TRec):
+            attr = getattr(self.reg, 'rec_props', {}).get(ty.name, {}) \
+                                                     .get(attr, attr)
             if attr in ty.fields:
                 return Val(ty.fields[attr], ty.get(base.term, attr))
             raise OutsideSubset('record %s has no field %s' % (ty, attr))
@@ -541,6 +554,15 @@ class Executor:
         return Val(ty, term)
 
     def const_dict_lookup(self, d, key, st):
+        # large constant tables (state name -> value): an uninterpreted
+        # function with one ground fact per key keeps quantified formulas small
+        if len(d.items) > 4 and all(v.has_py() and not
+                                    isinstance(v, (PyTuple, PyDict))
+                                    for v in d.items.values()):
+            try:
+                return self.const_table(d, key, st)
+            except OutsideSubset:
+                pass
         cases = []
         conds = []
         for k, v in d.items.items():
@@ -554,6 +576,35 @@ class Executor:
         if not cases:
             return NONE
         return self.ite_chain(cases)
+
+    _tables = dict()
+
+    def const_table(self, d, key, st):
+        kty = vty = None
+        for k, v in d.items.items():
+            kt = lift(k).ty
+            kty = kt if kty is None else join_ty(kty, kt)
+            vty = v.ty if vty is None else join_ty(vty, v.ty)
+        if vty in (TNone, TPy) or kty in (TNone, TPy):
+            raise OutsideSubset('table types')
+        ident = (tuple((repr(k), repr(v.py)) for k, v in d.items.items()))
+        if ident not in Executor._tables:
+            f = z3.Function('tbl!%d' % len(Executor._tables), kty.sort(),
+                            vty.sort())
+            facts = [f(coerce(lift(k), kty).term) == coerce(v, vty).term
+                     for k, v in d.items.items()]
+            Executor._tables[ident] = (f, kty, vty, facts)
+        f, kty, vty, facts = Executor._tables[ident]
+        if ('tbl', ident) not in self.__dict__.setdefault('_axiom_keys', set()):
+            self._axiom_keys.add(('tbl', ident))
+            self.axioms.extend(facts)
+        conds = [eq(lift(k), key) for k in d.items]
+        self.fail(st, z3.Not(z3.Or(*conds)), 'KeyError')
+        try:
+            kk = coerce(key, kty)
+        except OutsideSubset:
+            raise
+        return Val(vty, f(kk.term))
 
     def ev_slice(self, base, sl, st):
         if sl.step is not None:
@@ -1463,6 +1514,7 @@ class Executor:
         s.bound = bound
         s.old   = a.old
         s.trace = a.trace[:]
+        s.heads = dict(a.heads)
         return s
 
     def merge_val(self, c, va, vb):
@@ -1499,6 +1551,26 @@ def _has_list(ty):
     if isinstance(ty, TMap):  return _has_list(ty.v)
     if isinstance(ty, TTuple): return any(_has_list(t) for t in ty.elems)
     return False
+
+
+_hq_cache = dict()
+
+
+def has_quant(e):
+    k = e.get_id()
+    if k in _hq_cache:
+        return _hq_cache[k]
+    todo, seen, res = [e], set(), False
+    while todo:
+        x = todo.pop()
+        i = x.get_id()
+        if i in seen: continue
+        seen.add(i)
+        if z3.is_quantifier(x):
+            res = True; break
+        todo.extend(x.children())
+    _hq_cache[k] = res
+    return res
 
 
 class ModRef(Val):
